@@ -55,6 +55,20 @@ def templates(rng, cfg_proto=None):
                     ev += ([k(59, 0), k(A, 0)] if rel_modal_first else [k(A, 0), k(59, 0)]) + back
                     ev += tap(A) + tap(B) + [k(A, 1), k(B, 1), k(A, 0), k(B, 0)] + tap(A)
                     out.append({"cfg": cfg, "abs": [], "events": ev, "tag": "template-modal"})
+    # the ends of every range, held at disconnect: pitches 0, 1, 126, 127 (directly and reached through a transposition) on the first and the
+    # last channel - alone, together, and after a tap of the same key
+    for cmode in devgen.CMODES:
+        for chan in (1, 16):
+            keys = [(30, 127, 0), (31, 0, 0), (32, 126, 15), (33, 1, 15), (34, 115, 0), (35, 12, 15)]
+            cfg = {"mappings": [{"name": "M0", "midi": [{"sub": "", "code": c, "note": n, "off": o} for c, n, o in keys], "analog": [], "dz": [], "defdz": [], "subs": []}],
+                   "actions": [{"code": 60, "action": "octave_up"}, {"code": 61, "action": "octave_down"}],
+                   "exitseq": [], "cmode": cmode, "octave": 0, "semitone": 0, "channel": chan, "mapping": 0, "velocity": 64}
+            for c, n, o in keys[:4]:
+                out.append({"cfg": cfg, "abs": [], "events": [k(c, 1)], "tag": "template-extremes-held"})
+                out.append({"cfg": cfg, "abs": [], "events": tap(c) + [k(c, 1)], "tag": "template-extremes-held"})
+            out.append({"cfg": cfg, "abs": [], "events": [k(c, 1) for c, n, o in keys[:4]], "tag": "template-extremes-held"})
+            out.append({"cfg": cfg, "abs": [], "events": tap(60) + [k(34, 1)], "tag": "template-extremes-held"})               # 115 + 12 = 127
+            out.append({"cfg": cfg, "abs": [], "events": tap(61) + [k(35, 1)] + tap(60) + [k(30, 1)], "tag": "template-extremes-held"})   # 12 - 12 = 0
     return out
 
 
